@@ -31,6 +31,11 @@ abbrev Code := Nat
 def nf : Code := 5
 /-- `codes.Internal` -/
 def internal : Code := 13
+/-- `codes.Canceled`: what a replica returns (`util.StatusFromContext`) when its
+context is cancelled while it is still working - by the caller giving up, or by
+the errgroup because the other replica failed. For the composite it is a
+failure of that replica's call like any other: a scripted fault with this code. -/
+def canceled : Code := 1
 
 inductive Side | A | B
 deriving DecidableEq, Repr
